@@ -186,3 +186,29 @@ class RemapCtx:
 
     def __getattr__(self, name):
         return getattr(self._ctx, name)
+
+
+def url_decode_sites_rule(ctx, rule_id):
+    """Percent-decoding inside wpull/url.py happens only for the user-info fields, which are re-encoded when the URL is
+    re-assembled; host, path, query and fragment are never decoded after the control-character check of URLInfo.parse
+    (a decoded %0D%0A in the host would reach the Host field and the request target)."""
+    repo, ck = ctx.repo, ctx.check
+    mod = repo.module('wpull.url')
+    DEC = {'percent_decode', 'percent_decode_plus', 'urllib.parse.unquote', 'urllib.parse.unquote_plus', 'urllib.parse.unquote_to_bytes',
+           'unquote', 'unquote_plus'}
+    n = 0
+    for f in [x for x in repo.funcs.values() if x.module is mod]:
+        pm = None
+        for c in U.calls(f.node):
+            if (dotted(c.func) or '') in DEC:
+                n += 1
+                pm = pm or U.parents(f.node)
+                st = U.enclosing_stmt(c, pm)
+                ok = isinstance(st, ast.Assign) and st.value is c and all(
+                    isinstance(t, ast.Attribute) and t.attr in ('username', 'password') for t in st.targets)
+                ck.expect(ok, rule_id, f.qual, norm_text(st)[:80],
+                          'a URL component other than user name / password is percent-decoded inside the URL parser (after the '
+                          'control-character check): decoded CR, LF, TAB or space can reach the host, the request line or the Host field',
+                          f.loc(c))
+    if n < 2:
+        ck.bad(rule_id, 'wpull.url', 'percent-decoding of the user-info fields', 'expected the user name and password to be percent-decoded in URLInfo.parse (found %d decode sites)' % n)
